@@ -8,9 +8,11 @@
 import GHEVerif.Lemmas.Search
 import GHEVerif.Lemmas.SearchNested
 import GHEVerif.Lemmas.SearchRowWise
+import GHEVerif.Lemmas.Report
+import GHEVerif.Model.Pipeline
 
 namespace GHEVerif.C01
-open GHEVerif GHEVerif.Search
+open GHEVerif GHEVerif.Search GHEVerif.Report GHEVerif.Pipeline
 
 /-- Whatever the excess function, a candidate selected by the integer bisection was evaluated at
     maximum height by this very search and meets the limits there (`E k maxH < 0`).  No
@@ -276,6 +278,73 @@ theorem size_after_feasible_selection (x : Rat) (f : Rat → Rat) (lo hi brent t
     refine ⟨.bracketed, brent, h1, by decide, ?_⟩
     have : f brent ≤ ratAbs (f brent) := by unfold ratAbs; split <;> linarith
     linarith
+
+/-! ### the whole `find_design` pipeline -/
+
+/-- End-to-end statement for the flat searches (near-square, rectangle): whenever
+    `find_design` returns a design that is not a `continue_if_design_unmet` escape and whose
+    selected candidate is feasible at maximum height in the sizing objective as well (the
+    `Consistent` contract: the three-height interpolated objective agrees in sign with the
+    search-stage excess at max height — measured on every real run), then under Brent's contract and
+    a Lipschitz constant `c` the final object (i) reports temperatures computed at its final
+    height, (ii) has its height inside `[min_height, max_height]`, and (iii) has excess at most
+    `c·tol` at that height: the limits are kept within the sizing tolerance. -/
+theorem find_design_feasible_1D (counts : List Nat) (E : Nat → Rat → Rat) (cfg : Cfg)
+    (f : Nat → Rat → Rat) (its : Nat → List Rat) (brent : Nat → Rat) (d : Design) (tol c : Rat)
+    (hres : findDesign1D counts E cfg f its brent = .design d)
+    (hwin : cfg.minH ≤ cfg.maxH)
+    (hcons : E d.field cfg.maxH < 0 → f d.field cfg.maxH < 0)
+    (hfeas : E d.field cfg.maxH < 0)
+    (hnz : f d.field cfg.minH ≠ 0)
+    (hb : 0 < f d.field cfg.minH → BrentSpec (f d.field) cfg.minH cfg.maxH tol (brent d.field))
+    (hl : Lipschitz (f d.field) c cfg.minH cfg.maxH) (hct : 0 ≤ c * tol) :
+    d.st.simAt = some d.st.H ∧ cfg.minH ≤ d.st.H ∧ d.st.H ≤ cfg.maxH ∧ f d.field d.st.H ≤ c * tol := by
+  unfold findDesign1D at hres
+  generalize hb1 : (bisect1D counts E cfg).1 = o at hres
+  cases o with
+  | valueError => simp at hres
+  | pyError e => simp at hres
+  | selected k h p =>
+    simp only at hres
+    cases hs : size (f k) cfg.minH cfg.maxH (its k) (brent k) { H := h, simAt := none, returned := 0 } with
+    | error e => simp [hs] at hres
+    | ok st =>
+      simp only [hs] at hres
+      injection hres with hres
+      subst hres
+      simp only at hcons hfeas hnz hb hl ⊢
+      obtain ⟨h1, kind, hk⟩ := size_simAt (f k) cfg.minH cfg.maxH (its k) (brent k) _ _ hs
+      obtain ⟨kind', H', hk', hne, hle⟩ :=
+        size_after_feasible_selection ((cfg.maxH + cfg.minH) / 2) (f k) cfg.minH cfg.maxH (brent k) tol c
+          (hcons hfeas) hnz hb hl hct
+      rw [hk] at hk'
+      injection hk' with hk'
+      injection hk' with e1 e2
+      subst e1; subst e2
+      refine ⟨h1, ?_, ?_, hle⟩
+      · -- the height is in the window: low clamp or Brent's iterate
+        rcases lt_or_gt_of_ne hnz with hneg | hpos
+        · have := solveRoot_clamped_low ((cfg.maxH + cfg.minH) / 2) (f k) cfg.minH cfg.maxH (brent k) hneg (hcons hfeas)
+          rw [hk] at this; injection this with this; injection this with _ e; rw [e]
+        · obtain ⟨h2, _, h3, _⟩ := solveRoot_bracketed ((cfg.maxH + cfg.minH) / 2) (f k) cfg.minH cfg.maxH (brent k) tol c
+            (Or.inr ⟨hcons hfeas, hpos⟩) (hb hpos) hl
+          rw [hk] at h2; injection h2 with h2; injection h2 with _ e; rw [e]; exact h3
+      · rcases lt_or_gt_of_ne hnz with hneg | hpos
+        · have := solveRoot_clamped_low ((cfg.maxH + cfg.minH) / 2) (f k) cfg.minH cfg.maxH (brent k) hneg (hcons hfeas)
+          rw [hk] at this; injection this with this; injection this with _ e; rw [e]; exact hwin
+        · obtain ⟨h2, _, _, h4⟩ := solveRoot_bracketed ((cfg.maxH + cfg.minH) / 2) (f k) cfg.minH cfg.maxH (brent k) tol c
+            (Or.inr ⟨hcons hfeas, hpos⟩) (hb hpos) hl
+          rw [hk] at h2; injection h2 with h2; injection h2 with _ e; rw [e]; exact h4
+
+
+/-- Non-vacuity of the pipeline theorem: search (candidate 2), then a bracketed sizing whose Brent
+    root is 110 m: the object ends at H = 110 with temperatures simulated at 110. -/
+example :
+    findDesign1D [1, 4, 9, 16] (fun i h => if h = 135 then (3 : Rat) - 2 * i else 10 - 2 * i)
+      { cap := none, cont := false, maxIter := 15, minH := 60, maxH := 135 }
+      (fun k h => (3 : Rat) - 2 * k + (135 - h) / 25) (fun _ => [100, 112]) (fun _ => 110)
+      = .design { field := 2, path := .bisection, st := { H := 110, simAt := some 110, returned := 110 } } := by
+  decide +kernel
 
 /-- Non-vacuity: a 4-candidate list with a decreasing excess; the search selects candidate 2. -/
 example :
